@@ -83,3 +83,10 @@ var storeMu sync.Mutex
 
 func storeLock(s *vStore)   { storeMu.Lock() }
 func storeUnlock(s *vStore) { storeMu.Unlock() }
+
+// ... and NodeCache.Add from the same goroutines: the recording cache is locked too (without
+// this, a wide flush loses cache entries natively and the native trace diverges).
+var cacheMu sync.Mutex
+
+func cacheLock(c *vCache)   { cacheMu.Lock() }
+func cacheUnlock(c *vCache) { cacheMu.Unlock() }
